@@ -87,6 +87,12 @@ static void c01_gen(Tape &t, Case &c) {
   SolveCfg cfg = gen_cfg(t, true);
   if (!g.hint_cs.empty() && t.chance(2, 3)) cfg.algo = PRIMAL_SIMPLEX;
   if (cfg.entry != 0 && t.chance(1, 5)) cfg.itlim = 1 + (int)t.below(6);
+  // objective limits: near the optimum when it is known by construction, else a small number
+  if (t.chance(1, 6)) {
+    cfg.objlim_kind = 1 + (int)t.below(2);
+    Q base = g.expect == T_OPTIMAL ? g.expect_value : Q(0);
+    cfg.objlim = base + Q((long)t.below(5) - 2) * (t.coin() ? Q(1) : Q(1, 1000));
+  }
   c.ops.push_back(cfg.op());
 }
 static void c02_gen(Tape &t, Case &c) {
@@ -109,8 +115,8 @@ static void c03_gen(Tape &t, Case &c) {
   GenLP g;
   // unbounded answers cost the whole precision ladder: keep their share small
   static const int fam[] = {F_OPT, F_OPT, F_ILL, F_INF, F_FACE, F_SHAPE, F_RAND, F_CYC, F_OPT, F_ILL, F_INF, F_FACE, F_SHAPE, F_RAND,
-                            F_OPT, F_ILL, F_INF, F_CYC, F_RAND, F_UNB};
-  gen_lp_family(t, o, fam[t.below(20)], g);
+                            F_OPT, F_ILL, F_INF, F_CYC, F_RAND, F_UNB, F_COVER, F_COVER, F_FIXB, F_DUP};
+  gen_lp_family(t, o, fam[t.below(24)], g);
   c.add_model(g.m);
   put_meta(c, g);
   c.ops.push_back(Op("route").I(t.below(R_NROUTES)));
@@ -123,8 +129,8 @@ static void c04_gen(Tape &t, Case &c) {
   GenOpts o;
   o.maxm = 2 + (int)t.below(7); o.maxn = 2 + (int)t.below(7); o.bigness = 1;
   GenLP g;
-  static const int fam[] = {F_OPT, F_OPT, F_ILL, F_INF, F_FACE, F_SHAPE, F_RAND, F_CYC, F_OPT, F_ILL, F_INF, F_FACE, F_RAND, F_FIXB, F_DUP};
-  int fk = fam[t.below(15)];
+  static const int fam[] = {F_OPT, F_OPT, F_ILL, F_INF, F_FACE, F_SHAPE, F_RAND, F_CYC, F_OPT, F_ILL, F_INF, F_FACE, F_RAND, F_FIXB, F_DUP, F_COVER};
+  int fk = fam[t.below(16)];
   if (t.chance(1, 14)) { fk = F_DUP; o.minn = 400; }     // wide: >= 400 columns take the crash-basis path
   gen_lp_family(t, o, fk, g);
   c.add_model(g.m);
@@ -351,6 +357,7 @@ static void solve_run(const Case &c, Result &r, const char *prop) {
     r.label("cfg:dp" + std::to_string(cfg.dprice));
     r.label("cfg:scale" + std::to_string(cfg.scaling));
     r.label("cfg:prec" + std::to_string(cfg.precision));
+    if (cfg.objlim_kind) r.label(cfg.objlim_kind == 1 ? "cfg:objulim" : "cfg:objllim");
     judge(prop, m, cfg, p, so, truth, truth_value, r);
     if (r.verdict != PASS) break;
     const Solution &s = so.s;
